@@ -222,7 +222,13 @@ func c18Run(r *drv.Run, i int, cfg c18Config, lib []wire.Match, libStr [][]wire.
 	fs := c18FileSets[cfg.fileset]
 	var args []string
 	if cfg.viaSrc {
-		os.WriteFile(filepath.Join(dir, "prog.vore"), []byte(prog.src), 0o644)
+		body := prog.src
+		if i%2 == 0 {
+			// a source file longer than the reader's 4096-byte buffer, the program straddling the boundary
+			body = "--(" + strings.Repeat("c", 4096-8-len(prog.src)/2) + ")--\n" + prog.src
+			r.Count("src_files_over_4096_bytes", 1)
+		}
+		os.WriteFile(filepath.Join(dir, "prog.vore"), []byte(body), 0o644)
 		args = append(args, "-src", "prog.vore")
 	} else {
 		args = append(args, "-com", prog.src)
